@@ -84,6 +84,28 @@ func init() {
 		}
 		return a[0]
 	}
+	// non-forking boolean combinators (Go's && / || / if fork the path; these build one term)
+	boolArgs := func(ex *Exec, a []Value) []*Term {
+		var ts []*Term
+		for _, v := range a {
+			switch x := v.(type) {
+			case *Term:
+				ts = append(ts, x)
+			case *SliceV:
+				for i := 0; i < x.Len && x.Arr != nil; i++ {
+					ts = append(ts, ex.rawLoad((&Ptr{Obj: x.Arr}).child(x.Off+i)).(*Term))
+				}
+			}
+		}
+		return ts
+	}
+	I[rtPkg+"And"] = func(ex *Exec, a []Value) Value { return ex.ts.And(boolArgs(ex, a)...) }
+	I[rtPkg+"Or"] = func(ex *Exec, a []Value) Value { return ex.ts.Or(boolArgs(ex, a)...) }
+	I[rtPkg+"Not"] = func(ex *Exec, a []Value) Value { return ex.ts.Not(a[0].(*Term)) }
+	I[rtPkg+"Implies"] = func(ex *Exec, a []Value) Value { return ex.ts.Implies(a[0].(*Term), a[1].(*Term)) }
+	I[rtPkg+"B2I"] = func(ex *Exec, a []Value) Value {
+		return ex.ts.Ite(a[0].(*Term), ex.ts.IntS(SInt(64, true), 1), ex.ts.IntS(SInt(64, true), 0))
+	}
 	I[rtPkg+"Symbolic"] = func(ex *Exec, a []Value) Value { return ex.ts.Bool(true) }
 	I[rtPkg+"CancelCtx"] = func(ex *Exec, a []Value) Value {
 		name := a[0].(string)
@@ -193,6 +215,27 @@ func init() {
 	}
 	I[rtPkg+"Spawn"] = func(ex *Exec, a []Value) Value {
 		ex.spawn(a[0].(string), a[1].(*Closure))
+		return nil
+	}
+	I[rtPkg+"SpawnAfter"] = func(ex *Exec, a []Value) Value {
+		ex.spawn(a[0].(string), a[1].(*Closure))
+		spec := ex.conc.threads[len(ex.conc.threads)-1]
+		switch sl := a[2].(type) {
+		case *SliceV:
+			for i := 0; i < sl.Len; i++ {
+				if sl.Arr == nil {
+					break
+				}
+				if s, ok := ex.rawLoad((&Ptr{Obj: sl.Arr}).child(sl.Off + i)).(string); ok {
+					spec.After = append(spec.After, s)
+				} else {
+					panic(unsupported("SpawnAfter: non-constant thread name"))
+				}
+			}
+		case nil:
+		default:
+			panic(unsupported(fmt.Sprintf("SpawnAfter: after list of kind %T", a[2])))
+		}
 		return nil
 	}
 	I[rtPkg+"Parallel"] = func(ex *Exec, a []Value) Value {
